@@ -19,7 +19,7 @@ THETAOPS_JOB = job("thetaops",
                                          "--maxlgk", 7 if k % 3 else 8, "--directed", 1 if k == 0 else 0],
     nontrivial=ops_nontrivial,
     # operand values (Sk events) are inputs taken as observed; the specification binds the fields of these events
-    bound_events=["UResult", "IResult", "AnotB", "Form", "Jaccard"],
+    bound_events=["UResult", "IResult", "AnotB", "Form", "Jaccard"], bound_fields=["thetaH", "ent", "n", "empty", "estI"],
 )
 
 THETAOPS_MC = [
